@@ -4021,3 +4021,107 @@ func lowerBound(v ssa.Value, at *ssa.BasicBlock, depth int) int64 {
 	}
 	return best
 }
+
+// C14.5: the two byte counts of the anti-amplification budget are the sizes of the datagrams themselves.
+//   - received: the argument of ReceivedBytes is the dequeued datagram's Size(), and Size() is len(data)
+//     (not cap(data): the data slice points into a full-size read buffer);
+//   - sent: every size handed to SentPacket in the root package is a packet's recorded length, and that length is
+//     recorded as len(raw) of the very slice by which the packet buffer grew (padding and AEAD overhead included),
+//     not a recomputation from the payload length.
+func c14AccountingOrigins(c *Ctx) {
+	const R = "C14.5"
+	rbI := c.obj(ah, "SentPacketHandler", "ReceivedBytes")
+	sizeFn := c.fn("", "receivedPacket", "Size")
+	sizeObj := c.obj("", "receivedPacket", "Size")
+	data := c.fld("", "receivedPacket", "data")
+	isLenData := func(v ssa.Value) bool { return LenOf(Load(data))(v) }
+	n := 0
+	for _, cs := range c.P.CallSites(rbI) {
+		cl, ok := cs.Instr.(ssa.CallInstruction)
+		if !ok || cs.Kind == "value" {
+			continue
+		}
+		n++
+		args := cl.Common().Args
+		if !cl.Common().IsInvoke() {
+			args = args[1:]
+		}
+		okv := len(args) > 0 && (CallTo(sizeObj, -1)(args[0]) || isLenData(args[0]))
+		c.Check(okv, R, "origin:ReceivedBytes counts the datagram's size in "+cs.Fn.Name(), c.P.InstrPos(cs.Instr), "the credit towards the 3x budget is the number of bytes actually received in that datagram")
+	}
+	c.Floor(R, "ReceivedBytes call sites", n, 1)
+	nr := 0
+	eachInstr(sizeFn, func(i ssa.Instruction) {
+		r, ok := i.(*ssa.Return)
+		if !ok {
+			return
+		}
+		nr++
+		c.Check(isLenData(retResults(r)[0]), R, "shape:receivedPacket.Size is len(data)", c.P.InstrPos(i), "len, not cap: data is a sub-slice of a full-size read buffer")
+	})
+	c.Floor(R, "returns of receivedPacket.Size", nr, 1)
+
+	// sent side
+	spI := c.obj(ah, "SentPacketHandler", "SentPacket")
+	lhLen := c.fld("", "longHeaderPacket", "length")
+	shLen := c.fld("", "shortHeaderPacket", "Length")
+	sig := spI.Type().(*types.Signature)
+	idx := -1
+	for k := 0; k < sig.Params().Len(); k++ {
+		if sig.Params().At(k).Name() == "size" {
+			idx = k
+		}
+	}
+	c.Check(idx >= 0, R, "anchor:SentPacket has a size parameter", "-", "parameter named size")
+	ns := 0
+	for _, cs := range c.P.CallSites(spI) {
+		cl, ok := cs.Instr.(ssa.CallInstruction)
+		if !ok || cs.Kind == "value" || cs.Fn.Pkg == nil || cs.Fn.Pkg.Pkg.Name() != "quic" {
+			continue
+		}
+		args := cl.Common().Args
+		if !cl.Common().IsInvoke() {
+			args = args[1:]
+		}
+		if idx < 0 || idx >= len(args) {
+			continue
+		}
+		ns++
+		a := args[idx]
+		c.Check(Load(lhLen)(a) || Load(shLen)(a), R, "origin:SentPacket counts the packet's recorded length in "+cs.Fn.Name()+"#"+fmt.Sprint(ns), c.P.InstrPos(cs.Instr), "the debit against the 3x budget is the packet's length as serialised")
+	}
+	c.Floor(R, "SentPacket call sites in the root package", ns, 4)
+	nw := 0
+	for _, fld := range []*types.Var{lhLen, shLen} {
+		{
+			for _, w := range c.P.Writers(fld) {
+				f := w.Fn
+				if w.Kind != "store" {
+					c.Bad(R, "shape:"+fld.Name()+" written other than by a direct store in "+f.Name(), c.P.InstrPos(w.Instr), w.Kind)
+					continue
+				}
+				nw++
+				// value = ByteCount(len(raw)) and the buffer grows by the same len(raw)
+				var raw ssa.Value
+				if cv, ok := stripConv(w.Val).(*ssa.Call); ok && builtinName(&cv.Call) == "len" {
+					raw = cv.Call.Args[0]
+				}
+				grows := false
+				if raw != nil {
+					eachInstr(f, func(i ssa.Instruction) {
+						sl, ok := i.(*ssa.Slice)
+						if !ok || sl.High == nil {
+							return
+						}
+						if BinV(token.ADD, Any(), LenOf(func(v ssa.Value) bool { return v == raw }))(sl.High) {
+							grows = true
+						}
+					})
+				}
+				c.Check(raw != nil && grows, R, "shape:"+fld.Name()+" is the length by which the buffer grew in "+f.Name(), c.P.InstrPos(w.Instr),
+					"the recorded length is len(raw) of the slice appended to the packet buffer: header, payload, padding and AEAD tag")
+			}
+		}
+	}
+	c.Floor(R, "stores to the packets' recorded length", nw, 3)
+}
